@@ -73,12 +73,11 @@ def Ledger.Matches (L : Ledger) (bs : List Block) : Prop :=
   ∀ x n, (x, n) ∈ L ↔ (⟨x, n, true⟩ : Block) ∈ bs
 
 /-- an operation inside the domain of the model (see ASSUMPTIONS of the check): `alloc(n)` with
-    `n ≥ 1`; `free(None)` or `free(x)` with any `x` below the end of the allocator's range (live,
-    already freed, never allocated, interior of a block, or below `addr_offset` such as a
-    hardware bus index; `x ≥ addr_offset + size` raises `IndexError` in the code) -/
+    `n ≥ 1`; `free` of ANY address (live, already freed, never allocated, interior of a block, below
+    or above the allocator's range — those are ignored) or `None` -/
 def Op.Valid (off size : Nat) : Op → Prop
   | .alloc n _ => 0 < n
-  | .free (some x) => x < off + size
+  | .free (some _) => True
   | .free none => True
 
 /-! ### what the property demands of one step, in terms of outputs and the ledger only -/
